@@ -113,40 +113,41 @@ def contracts():
 """, loops={1: "    invariant forall|j: int| 0 <= j < it1.index@ ==> self.hook@[j].name@ != name@,",
             2: "    invariant forall|j: int| 0 <= j < it2.index@ ==> self.group@[j].name@ != name@, no_hook(*self, name@),",
             3: """
-    invariant no_hook(*self, name@), first_group(*self, name@, it2.index@), max_depth > 0, *grp == self.group@[it2.index@ as int],
-        expand_list(*self, grp.hooks@.take(it3.index@), (max_depth - 1) as nat) == Some(hook_names(ret@)),
+    invariant no_hook(*self, name@), first_group(*self, name@, it2.index@), max_depth > 0, *$grp == self.group@[it2.index@ as int],
+        expand_list(*self, $grp.hooks@.take(it3.index@), (max_depth - 1) as nat) == Some(hook_names($ret@)),
 """},
-        at=[("before", "self.hook.iter()", 1, "it1:"), ("before", "self.group.iter()", 1, "it2:"), ("before", "grp.hooks.iter()", 1, "it3:"),
-            ("before_stmt", "return Ok(vec![h])", 1, """
+        at=[("before", "self.hook.iter()", 1, "it1:"), ("before", "self.group.iter()", 1, "it2:"), ("before", "$grp.hooks.iter()", 1, "it3:"),
+            ("before_stmt", "return Ok(vec![$h1])", 1, """
                 proof {
                     assert(first_hook(*self, name@, it1.index@));
                     lemma_hook_unique(*self, name@);
-                    assert(hook_names(seq![h]) =~= seq![name@]);
+                    assert(hook_names(seq![$h1]) =~= seq![name@]);
                 }"""),
-            ("before_stmt", "let mut ret = vec![]", 1, """
+            ("before_stmt", "let mut $ret = vec![]", 1, """
                 proof {
                     assert(first_group(*self, name@, it2.index@));
-                    assert(grp.hooks@.take(0) =~= Seq::<String>::empty());
+                    assert($grp.hooks@.take(0) =~= Seq::<String>::empty());
                     assert(hook_names(Seq::<hooks::Hook>::empty()) =~= Seq::<Seq<char>>::empty());
                 }"""),
-            ("after_stmt", "ret.append(&mut h)", 1, """
+            ("after_stmt", "$ret.append(&mut $h2)", 1, """
                     proof {
                         let k = it3.index@;
                         let d = (max_depth - 1) as nat;
-                        assert(grp.hooks@.take(k + 1).drop_last() =~= grp.hooks@.take(k));
-                        assert(grp.hooks@.take(k + 1).last() == grp.hooks@[k]);
-                        assert(hook_names(ret@) =~= hook_names(ret_before@) + hook_names(h_before@));
+                        assert($grp.hooks@.take(k + 1).drop_last() =~= $grp.hooks@.take(k));
+                        assert($grp.hooks@.take(k + 1).last() == $grp.hooks@[k]);
+                        assert(hook_names($ret@) =~= hook_names(ret_before@) + hook_names(h_before@));
                     }"""),
-            ("before_stmt", "ret.append(&mut h)", 1, "let ghost ret_before = ret; let ghost h_before = h;"),
-            ("before_stmt", "return Ok(ret)", 1, """
+            ("before_stmt", "$ret.append(&mut $h2)", 1, "let ghost ret_before = $ret; let ghost h_before = $h2;"),
+            ("before_stmt", "return Ok($ret)", 1, """
                 proof {
-                    assert(grp.hooks@.take(grp.hooks@.len() as int) =~= grp.hooks@);
+                    assert($grp.hooks@.take($grp.hooks@.len() as int) =~= $grp.hooks@);
                     lemma_group_unique(*self, name@);
                 }"""),
             ("before_stmt", "Err(format!(\"{name}: hook not found\")", 1, "proof { lemma_group_unique(*self, name@); lemma_hook_unique(*self, name@); }"),
             ("before_stmt", "return Err(format!(\"{name}: hook group cycle", 1, "proof { assert(first_group(*self, name@, it2.index@)); lemma_group_unique(*self, name@); }"),
             ],
-        rewrites=[("T-ITER", r"hook\.hook_type\.iter\(\)\.map\(\|e\| e\.to_owned\(\)\)\.collect\(\)", "crate::titer2::vec_to_hashset(&hook.hook_type)")])
+        rewrites=[("T-ITER", r"(?P<h>\w+)\.hook_type\.iter\(\)\.(?:map\(\|(?P<e>\w+)\| (?P=e)\.(?:to_owned|clone)\(\)\)|cloned\(\)|copied\(\))\.collect\(\)", lambda m: f"crate::titer2::vec_to_hashset(&{m.group('h')}.hook_type)")],
+        names={"ret": r"let mut (\w+) = vec!\[\];", "h2": r"let mut (\w+) = self\.get_hook_rec", "h1": r"let (\w+) = hooks::Hook \{", "grp": r"for (\w+) in self\.group\.iter\(\)"})
     c["Config::get_hook"] = FnSpec(ret="r", sig="""
     ensures r matches Ok(v) ==> expand(*self, name@, self.group@.len()) == Some(hook_names(v@)), //@C10.groups_expanded_in_place_in_order
 """)
